@@ -95,6 +95,7 @@ Proof.
   - exact H.
   - unfold do_attach. destruct (al_mem name_eqb (fib s) p); exact H.
   - exact H.
+  - exact H.
 Qed.
 
 Lemma clean_step fe s x : clean s -> clean (step fe s x).
@@ -282,6 +283,7 @@ Proof.
     apply (log_good_cond (fun j => mem j _)). apply log_good_nolog. intros; cbn; auto.
   - exact H.
   - unfold do_attach. destruct (al_mem name_eqb (fib s) p); [exact H|]. eapply log_ok_same; [| |exact H]; reflexivity.
+  - eapply log_ok_same; [| |exact H]; reflexivity.
   - eapply log_ok_same; [| |exact H]; reflexivity.
 Qed.
 
